@@ -76,6 +76,9 @@ VARIANTS = [
     V("c19_none_guard_negated", "M", E, "SamplingResults.get_error_log",
       *replace_expr("opt.is_none()", "not opt.is_none()"),
       note="posterior log dropped exactly when it exists", expect_rule="C19.R2"),
+    V("c19_warmup_size_adaptation_only", "M", S, "Summary.__init__",
+      *replace_expr("epoch.type.is_warmup(epoch.type)", "epoch.type.is_adaptation(epoch.type)"),
+      note="burn-in epochs are not counted as warm-up", expect_rule="C19.R2"),
     # ---- twins
     V("c19_t_book_order", "T", N, "NUTSKernel",
       lambda nd: isinstance(nd, ast.AnnAssign) and ast.unparse(nd.target) == "error_book",
